@@ -203,11 +203,57 @@ def run(ctx):
             out.append(st)
         return out
 
+    import os
+    import tempfile
+
+    tmpd = tempfile.mkdtemp(prefix="verif_c05_")
+    nfile = [0]
+
+    def three_files(doc):
+        """a common file, a user file re-defining some of its names, the common file named again: the last definition of a name
+        is the one in the file read last, so the tables are those of the expansion of common + user + common"""
+        user = [st for st in revalued(doc) if st[0] == "define"]
+        for st in doc:
+            if st[0] == "model_alias" and st[2][0] == "named" and rng.random() < 0.5:
+                user.append(["model_alias", st[1], ["named", st[2][1], (st[2][2] or []) + [["num", "-1"]]]])
+        if not user:
+            return
+        nfile[0] += 1
+        fa, fb = os.path.join(tmpd, f"common{nfile[0]}.dec"), os.path.join(tmpd, f"user{nfile[0]}.dec")
+        open(fa, "w").write(render_doc(doc))
+        open(fb, "w").write(render_doc(user))
+        text3 = render_doc(expand_doc(doc + user + doc))
+        case = {"kind": "expansion", "label": "three files: common, user, common", "files": [render_doc(doc), render_doc(user)], "expanded": text3}
+        try:
+            q = DecFileParser(fa, fb, fa if nfile[0] % 2 else os.path.join(tmpd, ".", os.path.basename(fa)))
+            q.parse()
+            a = impl_tables(q)
+            defs = q.dict_definitions()
+            b = tables_of(text3)
+        except Exception as e:
+            res.skipped += 1
+            return
+        last = {}
+        for st in doc + user + doc:
+            if st[0] == "define":
+                last[st[1]] = float(st[2])
+        res.case()
+        res.count("three_file_inputs")
+        if a != b:
+            res.violation("the text (given as files, one of them named twice) and its expansion give different decay tables", case, impl=a, model=b,
+                          clause="Define / ModelAlias mean their expansion")
+        elif canon_json(defs) != canon_json(last):
+            res.violation("dict_definitions() is not the last definition of each name", case, impl=defs, model=last, clause="last definition wins")
+
     for i in range(n_docs):
         doc, _, _ = gen_c05(rng)
         one(doc, "generated")
+        if i % 4 == 1:
+            three_files(doc)
         if i % 3 == 0 and any(st[0] == "define" for st in doc):
             one(revalued(doc), "generated:revalued")
             res.count("revalued")
     batch.run()
+    import shutil
+    shutil.rmtree(tmpd, ignore_errors=True)
     return res.done()
